@@ -150,6 +150,15 @@ func storeTargetOf(fa *FuncAn, v ssa.Value, depth int) string {
 				if strings.HasPrefix(a, "local<") && !strings.Contains(a, ".") {
 					continue
 				}
+				// an element of a slice made here: the value lands where that slice goes
+				if ia, ok := x.Addr.(*ssa.IndexAddr); ok {
+					if mk, ok := ia.X.(*ssa.MakeSlice); ok {
+						if s := storeTargetOf(fa, mk, depth+1); s != "" {
+							return s
+						}
+						continue
+					}
+				}
 				if i := strings.LastIndex(a, "."); i >= 0 {
 					a = a[i+1:]
 				}
@@ -209,7 +218,19 @@ func readerTrace(fa *FuncAn, ops map[string]string, verPat string) []layTok {
 						sub := NewFuncAnCtx(fa.W, g, fa.CallArgs(x))
 						sub.R.inlineDepth = fa.R.inlineDepth + 1
 						outer := versionGuard(fa, b, verPat)
+						// what the helper returns lands where the caller puts the helper's result
+						var res ssa.Value = x
+						if _, isTuple := x.Type().(interface{ Len() int }); isTuple {
+							res = errExtract(x, 0)
+						}
+						retDst := storeTargetOf(fa, res, 0)
+						if retDst == "" {
+							retDst = "tmp"
+						}
 						for _, st := range readerTrace(sub, ops, verPat) {
+							if st.Dst == "ret" {
+								st.Dst = retDst
+							}
 							st.Loop = st.Loop || inLoop
 							switch {
 							case st.Guard == "":
@@ -421,6 +442,21 @@ func compareTrace(c *Check, rule, fk, where, what string, got []layTok, want []s
 			pos = where
 		}
 		name := fmt.Sprintf("%s #%d %s", what, i+1, b)
+		// a composite step named without a destination (PRINC, HEADER …) is the same step whether its
+		// result is stored by the callee through a pointer or returned and stored by the caller
+		if a != b && !strings.Contains(b, "→") && strings.Contains(a, "→") {
+			if k := strings.Index(a, "→"); k > 0 {
+				rest := a[k:]
+				if sp := strings.Index(rest, " "); sp >= 0 {
+					rest = rest[sp:]
+				} else {
+					rest = ""
+				}
+				if a[:k]+rest == b {
+					a = b
+				}
+			}
+		}
 		if a == b {
 			c.Ok(rule, fk, name, pos, fmt.Sprintf("%s step %d is %s (%s)", what, i+1, b, source))
 		} else {
